@@ -612,7 +612,10 @@ def groupAggM (agg : Lam) (failure : Option Err) (fallback : Bool) : List (Value
         else none
       match fb with
       | some r => let t := groupAggM agg (some failure) fallback rest; ⟨r :: t.items, t.err⟩
-      | none => ⟨[], some failure⟩
+      | none =>
+        -- (what the retried aggregator does is not followed: no prediction at all)
+        if fallback && (match agg.eval (tuple [k, list vs]) with | .error .outOfDomain => true | _ => false)
+        then ⟨[], some .outOfDomain⟩ else ⟨[], some failure⟩
     match failure with
     | some f => tryFallback f
     | none =>
